@@ -178,6 +178,23 @@ def inject(p, cls, r):
             return None
         ops.append({"op": "flow", "kind": "importation", "name": "cnt", "param": "1", "dst": comps[0], "expected": 97})
         return q, len(ops)
+    if cls == "rate_not_a_number":
+        # a flow rate that is neither a number nor a graph object, at any point where a flow may be added
+        i = len(ops)
+        for j, o in enumerate(ops):
+            if o["op"] in ("req", "rebalance", "whitelist", "cv"):
+                i = j
+                break
+        i = r.randint(next((j for j, o in enumerate(ops) if o["op"] == "pop"), 0) + 1, i)
+        strat_before = [ops[j] for j in sidx if j < i]
+        bad = r.choice([{"str": r.choice(["0.3", "beta", "high"])}, {"none": 1}, {"list": ["1/2"]}, {"list": ["1/4", "1/2"]}, {"list": []}])
+        kind = r.choice(["transition", "infection_frequency", "infection_density", "death", "importation", "crude_birth", "absolute", "udeath"])
+        if kind == "udeath":
+            ops.insert(i, {"op": "udeath", "name": "badrate", "param": "0", "pyrate": bad})
+        else:
+            a, b = (comps[0], comps[1]) if len(comps) > 1 else (comps[0], comps[0])
+            ops.insert(i, {"op": "flow", "kind": kind, "name": "badrate", "param": "0", "src": a, "dst": b, "pyrate": bad})
+        return q, i + 1
     if cls == "after_finalize":
         change = r.choice([
             {"op": "flow", "kind": "transition", "name": "late", "param": "1/2", "src": comps[0], "dst": comps[1]},
@@ -207,7 +224,7 @@ CLASSES = ["end_before_start", "timestep_not_dividing", "timestep_not_dividing_l
            "adjustment_omits_stratum", "infectiousness_omits_stratum", "split_omits_stratum", "split_negative", "split_not_one",
            "second_birth_flow", "second_age", "second_strain", "duplicate_stratification", "duplicate_universal_death",
            "duplicate_output_name", "mixing_on_partial", "age_on_partial", "mixing_on_strain", "unequal_source_dest",
-           "flow_count_expectation", "after_finalize"]
+           "flow_count_expectation", "after_finalize", "rate_not_a_number"]
 
 
 def run(tier, seed):
@@ -223,7 +240,13 @@ def run(tier, seed):
     valid = valid[:n]
     progs, expect = [], []
     hits = {}
-    for p in valid:
+    for n_, p in enumerate(valid):
+        if n_ % 3 == 0:
+            # the same valid definitions with the rates handed over as plain Python values (numbers, graph objects)
+            for o in p["ops"]:
+                if o["op"] in ("flow", "udeath") and o.get("kind") != "replacement_birth" and "param" in o:
+                    e = o["param"]
+                    o["pyrate"] = {"num": e} if (isinstance(e, str) and e != "t") else {"graph": e}
         p["obs"] = [{"obs": "struct"}]
         progs.append(p)
         expect.append(None)
